@@ -110,7 +110,12 @@ func (b *memKV) emplace(k, cls string, bs []byte) error {
 func (b *memKV) replace(k, cls string, bs []byte) error {
 	b.mu.Lock()
 	defer b.mu.Unlock()
-	b.m[k] = newMemEntry(cls, bs)
+	entry := b.m[k]
+	if entry == nil {
+		b.m[k] = newMemEntry(cls, bs)
+	} else {
+		entry.setBytes(bs)
+	}
 	return nil
 }
 
